@@ -275,7 +275,8 @@ class GridBlueprint(yamlize.Object):
         symmetry = (
             geometry.SymmetryType.fromStr(self.symmetry) if self.symmetry else None
         )
-        geom = self.geom
+        # geometry names are accepted in any capitalisation elsewhere (lattice maps, GeomType)
+        geom = str(self.geom).lower()
         maxIndex = self._getMaxIndex()
         runLog.extra("Creating the spatial grid")
         if geom in (geometry.RZT, geometry.RZ):
@@ -332,6 +333,10 @@ class GridBlueprint(yamlize.Object):
 
             spatialGrid = grids.CartesianGrid.fromRectangle(
                 xw, yw, numRings=maxIndex + 1, isOffset=isOffset
+            )
+        elif geom not in (geometry.RZT, geometry.RZ):
+            raise InputError(
+                f"Grid {self.name} has the unknown geometry `{self.geom}`. Check blueprints."
             )
         runLog.debug("Built grid: {}".format(spatialGrid))
         # set geometric metadata on spatialGrid. This information is needed in various
